@@ -220,14 +220,16 @@ pub fn run_case(case: &Value, opts: &Opts, style_seed: Option<u64>) -> Value {
             return Ok(json!({"reg": []}));
         }
         let mut st = SemanticState::new(ptr);
+        ADDS.with(|a| a.borrow_mut().clear());
         for &mi in &order {
             let m = &mods[mi];
             let parsed = pyxis::parser::parse_str(&texts[mi]).map_err(|e| {
                 let lc = e.span().start();
                 ("parse".to_string(), format!("{}:{}:{} {e}", mi, lc.line, lc.column + 1))
             })?;
-            st.add_module(&parsed, &item_path(prefix, arr(&m["path"])))
-                .map_err(|e| ("add".to_string(), format!("{e:#}")))?;
+            let r = st.add_module(&parsed, &item_path(prefix, arr(&m["path"])));
+            ADDS.with(|a| a.borrow_mut().push((mi + 1, r.is_ok())));
+            r.map_err(|e| ("add".to_string(), format!("{e:#}")))?;
         }
         let resolved = st.build().map_err(|e| ("build".to_string(), format!("{e:#}")))?;
         // registry projection through the public API
@@ -280,6 +282,7 @@ pub fn run_case(case: &Value, opts: &Opts, style_seed: Option<u64>) -> Value {
         );
     }
 
+    obs["adds"] = ADDS.with(|a| Value::Array(a.borrow().iter().map(|(mi, ok)| json!([mi, ok])).collect()));
     match result {
         Err(p) => {
             let msg = p
@@ -334,5 +337,6 @@ pub fn run_case(case: &Value, opts: &Opts, style_seed: Option<u64>) -> Value {
 }
 
 thread_local! {
+    static ADDS: std::cell::RefCell<Vec<(usize, bool)>> = const { std::cell::RefCell::new(vec![]) };
     static SCHED_MISSES: std::cell::RefCell<Option<std::rc::Rc<std::cell::Cell<usize>>>> = const { std::cell::RefCell::new(None) };
 }
